@@ -203,6 +203,16 @@ Definition spki_content (xy : list N) : list N :=
 (* AlgorithmIdentifier content of sm2sign-with-sm3 (no parameters) *)
 Definition alg_sm2sm3 : list N := [6; 8; 42; 129; 28; 207; 85; 1; 131; 117].
 
+(* what x509_signature_algor_from_der maps to OID_sm2sign_with_sm3: that OID, with absent or NULL parameters *)
+Definition alg_sm2sm3_null : list N := alg_sm2sm3 ++ [5; 0].
+Fixpoint octets_eq (a b : list N) : bool :=
+  match a, b with
+  | [], [] => true
+  | x :: a', y :: b' => (x =? y) && octets_eq a' b'
+  | _, _ => false
+  end.
+Definition alg_is_sm2sm3 (alg : list N) : bool := octets_eq alg alg_sm2sm3 || octets_eq alg alg_sm2sm3_null.
+
 Definition opt_nonempty (t : N) (c : list N) : value := match c with [] => None | _ => Some (t, c) end.
 
 (* x509_tbs_cert_to_der *)
